@@ -47,10 +47,14 @@ class ManifestLoader::ManifestLoaderImpl: public ParseActions {
     std::unique_ptr<Parser> parser;
     /// The active scope.
     Scope& scope;
+    /// The absolute path of the file.
+    std::string path;
 
     IncludeEntry(std::unique_ptr<llvm::MemoryBuffer> data,
-                 std::unique_ptr<Parser> parser, Scope& scope)
-      : data(std::move(data)), parser(std::move(parser)), scope(scope) {}
+                 std::unique_ptr<Parser> parser, Scope& scope,
+                 StringRef path)
+      : data(std::move(data)), parser(std::move(parser)), scope(scope),
+        path(path) {}
   };
 
   StringRef workingDirectory;
@@ -92,6 +96,16 @@ public:
     SmallString<256> path(filename);
     llvm::sys::fs::make_absolute(workingDirectory, path);
 
+    // A file which is still being loaded cannot be entered again: the
+    // include would never end.
+    for (const auto& entry: includeStack) {
+      if (StringRef(entry.path) == path.str()) {
+        if (forToken)
+          error("file is included recursively", *forToken);
+        return false;
+      }
+    }
+
     // Load the file data.
     StringRef forFilename = includeStack.empty() ? filename :
         getCurrentFilename();
@@ -103,7 +117,7 @@ public:
     // Push a new entry onto the include stack.
     auto parser = llvm::make_unique<Parser>(buffer->getBuffer(), *this);
     includeStack.emplace_back(std::move(buffer), std::move(parser),
-                              scope);
+                              scope, path.str());
 
     return true;
   }
